@@ -52,6 +52,11 @@ def main():
             shutil.copy(os.path.join(src, f), os.path.join(out, f))
     patch = os.path.join(out, "patch.diff")
     meta = {"seed_id": sid, "property": prop, "confirmed": {}, "checks": {}}
+    prev_path = os.path.join(out, "meta.json")
+    if os.path.exists(prev_path):
+        prev = json.load(open(prev_path))
+        # keep the verdict of the checks as they were when the seed was first evaluated
+        meta["checks_when_first_evaluated"] = prev.get("checks_when_first_evaluated", prev.get("checks"))
     # ---- 1. independent confirmation in scratch worktrees
     wt, clean = "/tmp/seedchk_%s" % sid, "/tmp/seedchk_%s_clean" % sid
     for d in (wt, clean):
